@@ -1,3 +1,3 @@
 import MpfVerif.DriverLoop
-import MpfVerif.Model.Template
-def main : IO UInt32 := MpfVerif.runDriver MpfVerif.Template.driverStep {}
+import MpfVerif.Model.CondDispatch
+def main : IO UInt32 := MpfVerif.runDriver MpfVerif.CondDispatch.driverStep {}
